@@ -9,6 +9,7 @@ use std::collections::BTreeSet;
 
 pub mod conc;
 pub mod crash;
+pub mod crashconc;
 pub mod damage;
 pub mod fault;
 pub mod keys;
@@ -190,6 +191,7 @@ pub fn replay_any(body: &Value) -> Result<Option<String>, String> {
         Some("c16") => seq::c16_replay(body),
         Some("c14") => keys::replay(body),
         Some("crash") => crash::replay(body),
+        Some("crashconc") => crashconc::replay(body),
         Some("fault") => fault::replay(body),
         Some("conc") => conc::replay(body),
         Some("reclaim") => reclaim::replay(body),
